@@ -324,7 +324,12 @@ def fact_template_sets_pure() -> bool:
     only: no file-system loader, search path or path operation is mentioned"""
     f = find_def(parse('jinja/loaders.py'), 'DSDLTemplateLoader', 'get_template_sets')
     allowed_attrs = {'_templates_package_name', 'version', 'append'}
-    allowed_names = {'self', 'template_sets', 'vr', 'VersionReader', 'typing', 'str', 'int', 'None'}
+    allowed_names = {'self', 'VersionReader', 'typing', 'str', 'int', 'None'}
+    for node in ast.walk(f):     # local variables (their values are checked through the attribute / name rules)
+        if isinstance(node, (ast.Assign, ast.AnnAssign)):
+            for t in (node.targets if isinstance(node, ast.Assign) else [node.target]):
+                if isinstance(t, ast.Name):
+                    allowed_names.add(t.id)
     for node in ast.walk(f):
         if isinstance(node, ast.Attribute) and node.attr not in allowed_attrs and not ast.unparse(node).startswith('typing.'):
             return False
